@@ -12,7 +12,7 @@ import (
 
 func init() {
 	register(&propCheck{id: "C13", needRoot: true, run: checkC13,
-		explanation: "Decided statically: (1) FORMAT — the token sequence emitted on every success path of the node / fast-node encoders, consumed by the decoders (with the field each decoded value is stored into), and the fixed-width big-endian key layouts and key-space prefixes equal the pinned on-disk format, which is written in the checker as data independent of the code; encoder and decoder are compared with the table separately, so a symmetric change to both is reported; (2) TOTAL — every decoder of stored bytes (varint/bytes decoders, MakeNode, MakeLegacyNode, fastnode.DeserializeNode, the reference-root reader) is free of reachable panic sites, unbounded allocations and loops for ALL byte strings: each index/slice/make/conversion site is an obligation discharged by a difference-bound (zone) abstract interpretation with verified callee post-conditions. NOT decided: that decoded values equal the reference tree over histories; that node keys sort numerically is implied by the big-endian layout only for non-negative versions."})
+		explanation: "Decided statically: (1) FORMAT — the token sequence emitted on every success path of the node / fast-node encoders, consumed by the decoders (with the field each decoded value is stored into), and the fixed-width big-endian key layouts and key-space prefixes equal the pinned on-disk format, which is written in the checker as data independent of the code; encoder and decoder are compared with the table separately, so a symmetric change to both is reported; (2) TOTAL — every decoder of stored bytes (varint/bytes decoders, MakeNode, MakeLegacyNode, fastnode.DeserializeNode, the reference-root reader) is free of reachable panic sites, unbounded allocations and loops for ALL byte strings: each index/slice/make/conversion site is an obligation discharged by a difference-bound (zone) abstract interpretation with verified callee post-conditions. NOT decided: that decoded values equal the reference tree over histories; that node keys sort numerically is implied by the big-endian layout only for non-negative versions. Rules added in the later seeding rounds (each listed with what it decides in this file's rule table) are described in DESIGN.md §3 \"Third and fourth seeding rounds\" and Appendix C3–C5."})
 }
 
 // pinned on-disk format (data, not derived from the code)
